@@ -487,6 +487,68 @@ func panickingCallbackRun(e *concEnv) string {
 	return "panicking-callbacks"
 }
 
+// returnedValuesRun: what an operation RETURNED to its caller (the caveat sets of Verify, the tickets of
+// UndischargedThirdPartyTickets, the slices of Map) is the caller's: callers use it outside any lock, so no later
+// operation on the bundle - or on a selection of it - may write to it. Deterministic: the returned values are
+// rendered, the bundle is modified (attenuated through a selection, filtered, added to, discharged, verified again),
+// and they must render the same; the thorough tier's -race pass watches the same program run concurrently.
+func returnedValuesRun(e *concEnv) string {
+	b, err := bundle.ParseBundle(concLoc, e.hdr)
+	if err != nil {
+		return "harness-error"
+	}
+	ctx := context.Background()
+	v := bundle.WithKey([]byte("kid"), e.key, nil)
+	b.Discharge(concTP, e.ka, func(cs []macaroon.Caveat) ([]macaroon.Caveat, error) { return nil, nil })
+	sets, err := b.Verify(ctx, v)
+	if err != nil || len(sets) == 0 {
+		return "harness-error(verify)"
+	}
+	render := func() string {
+		var sb strings.Builder
+		for _, cs := range sets {
+			sb.WriteString(sxCavs(cs.Caveats) + ";")
+		}
+		return sb.String()
+	}
+	tickets := b.UndischargedThirdPartyTickets()
+	strs := bundle.Map(b, func(t bundle.Token) string { return t.String() })
+	before, beforeT, beforeS := render(), fmt.Sprint(tickets), strings.Join(strs, ",")
+	var wg sync.WaitGroup
+	stop := make(chan struct{})
+	wg.Add(1)
+	go func() { // a caller using what it was given, outside any lock
+		defer wg.Done()
+		for {
+			select {
+			case <-stop:
+				return
+			default:
+				_ = render()
+			}
+		}
+	}()
+	sel := b.Select(bundle.KeepAll)
+	for i := 0; i < 8; i++ {
+		sel.Attenuate(&macaroon.ValidityWindow{NotBefore: 0, NotAfter: int64(4_000_000_000 + i)})
+		b.Attenuate(&flyio.Organization{ID: 1, Mask: resset.ActionAll &^ resset.Action(1<<uint(i%4)+16)})
+	}
+	b.AddTokens("fo1_later")
+	b.Verify(ctx, v)
+	b.Filter(bundle.Predicate(func(t bundle.Token) bool { return !strings.Contains(t.String(), "fo1_") }))
+	close(stop)
+	wg.Wait()
+	switch {
+	case render() != before:
+		return "wrong-answer(the caveat sets Verify returned changed after later operations on the bundle)"
+	case fmt.Sprint(tickets) != beforeT:
+		return "wrong-answer(the tickets UndischargedThirdPartyTickets returned changed)"
+	case strings.Join(strs, ",") != beforeS:
+		return "wrong-answer(the slice Map returned changed)"
+	}
+	return "returned-values-stable"
+}
+
 func famConc(r *Rng, o *Out, tier string) {
 	e := newConcEnv()
 	g, iters, wd := 4, 150, 4*time.Second
@@ -512,6 +574,7 @@ func famConc(r *Rng, o *Out, tier string) {
 	o.emit("(const shared-filter)", sharedFilterRun(e, iters))
 	o.emit("(const slow-writer)", slowWriterRun(e))
 	o.emit("(const panicking-callbacks)", panickingCallbackRun(e))
+	o.emit("(const returned-values-stable)", returnedValuesRun(e))
 	hangs := 0
 	for _, a := range all {
 		for _, w := range writers {
